@@ -110,7 +110,9 @@ package tracker
 //@   ensures #wf wf_progress(pr) && progress_untouched_but_flow(pr) && pr.sentCommit == old(pr.sentCommit) && pr.Inflights.count == 0
 
 //@ func tracker.Progress.BecomeSnapshot [C16 C09]
-//@   requires wf_progress(pr) && snapshoti >= pr.Match && snapshoti < 18446744073709551615
+//@   requires #wf wf_progress(pr)
+//@   requires #not-behind-match snapshoti >= pr.Match
+//@   requires #a-arith snapshoti < 18446744073709551615
 //@   frame tracker.Progress: pr
 //@   frame tracker.Inflights: pr.Inflights
 //@   ensures #snapshot [C09 C16] pr.State == StateSnapshot && pr.PendingSnapshot == snapshoti && pr.Next == snapshoti + 1 && pr.sentCommit == snapshoti
@@ -250,3 +252,8 @@ package tracker
 //@        && cnt_mono(p.Voters[1], id :: has(votes, id) && votes[id], id :: has(p.Progress, id) && !p.Progress[id].IsLearner && p.Progress[id].RecentActive)
 //@        && cnt_mono(p.Voters[1], id :: has(p.Progress, id) && !p.Progress[id].IsLearner && p.Progress[id].RecentActive, id :: has(votes, id) && votes[id])
 //@   ensures #quorum-of-recent-active [C17 C12] result <==> (majActive(p, p.Voters[0]) && majActive(p, p.Voters[1]))
+
+//@ -- every progress record is well-formed (records or inflight windows shared between ids would not invalidate this:
+//@ -- every operation re-establishes well-formedness of exactly the objects it writes)
+//@ pred opaque wf_trk(p *ProgressTracker) := p != nil && p.Progress != nil && p.Votes != nil
+//@     && (forall id uint64 :: has(p.Progress, id) ==> wf_progress(p.Progress[id]))
